@@ -63,6 +63,7 @@ def run_check(check, tier, registry):
     t0 = time.time()
     seed = int(os.environ.get("VERIF_SEED", "0"))
     workers = int(os.environ.get("VERIF_WORKERS", str(os.cpu_count() or 16)))
+    os.environ["VERIF_SHARDS"] = str(workers)     # (C13's cell walk strides by the number of shards)
     spec = registry.TIERS[tier]
     cspec = getattr(registry, "CHECK_TIERS", {}).get(check, {}).get(tier, {})
     budget = float(os.environ.get("VERIF_BUDGET_S", cspec.get("budget_s", spec["budget_s"])))
